@@ -377,6 +377,8 @@ package transform
 //@   requires offok(zBaseOffset) && 0 <= zBaseExponent && zBaseExponent <= 35
 //@   requires forall k :: 0 <= k && k < len(request) ==> request[k] != nil && 0 <= request[k].vZoom && request[k].vZoom <= 35
 //@   ensures [nil-on-error] r1 != nil ==> len(r0) == 0
+//@   -- the spatial-ID variant fails exactly when the extended-ID conversion it calls fails ($result: that call in the body)
+//@   ensures [error-iff-extended-fails] r1 == nil <==> $result(ConvertTileXYZsToExtendedSpatialIDs, 1) == nil
 //@ end
 
 //@ func ConvertExtendedSpatialIDsToQuadkeysAndAltitudekeys
